@@ -58,7 +58,29 @@ func backoffClampRule(c *Ctx, rule string) {
 	}
 	// raw = values (transitively) computed from math.Pow without passing a phi
 	var pow *ssa.Call
-	eachInstr(f, func(in ssa.Instruction) {
+	unitOfF := m.bodyFns(f)
+	eachUnitF := func(fn func(in ssa.Instruction)) {
+		for _, g := range unitOfF {
+			eachInstr(g, fn)
+		}
+	}
+	// retOf: the values a single-call-site phase of the computation returns
+	retsOf := func(call *ssa.Call) ([]ssa.Value, []*ssa.BasicBlock) {
+		g := call.Call.StaticCallee()
+		if g == nil || !containsFn(unitOfF, g) || g == f || g.Signature.Results().Len() != 1 {
+			return nil, nil
+		}
+		var vs []ssa.Value
+		var bs []*ssa.BasicBlock
+		for _, b := range liveBlocks(g) {
+			if ret, ok := b.Instrs[len(b.Instrs)-1].(*ssa.Return); ok && b != g.Recover {
+				vs = append(vs, returnValue(ret, 0))
+				bs = append(bs, b)
+			}
+		}
+		return vs, bs
+	}
+	eachUnitF(func(in ssa.Instruction) {
 		if call, ok := isCallTo(valueOf(in), "math.Pow"); ok {
 			pow = call
 		}
@@ -74,9 +96,23 @@ func backoffClampRule(c *Ctx, rule string) {
 			return false
 		}
 		switch x := v.(type) {
+		case *ssa.Parameter:
+			if tv := m.traceValue(x); tv != ssa.Value(x) {
+				return unclamped(tv, depth+1)
+			}
+			return false
 		case *ssa.Call:
 			if x == pow {
 				return true
+			}
+			// a phase of the computation in a function of its own: what it returns
+			if vs, _ := retsOf(x); vs != nil {
+				for _, rv := range vs {
+					if unclamped(rv, depth+1) {
+						return true
+					}
+				}
+				return false
 			}
 			// any other call passes its arguments on (math.Abs, a helper); the builtin min
 			// propagates NaN, so it is no clamp for 0 * +Inf either
@@ -127,7 +163,7 @@ func backoffClampRule(c *Ctx, rule string) {
 		return false
 	}
 	n := 0
-	eachInstr(f, func(in ssa.Instruction) {
+	eachUnitF(func(in ssa.Instruction) {
 		cv, ok := in.(*ssa.Convert)
 		if !ok || !isFloat(cv.X.Type()) || !isInt(cv.Type()) {
 			return
@@ -150,7 +186,7 @@ func backoffClampRule(c *Ctx, rule string) {
 		}
 		var nonNeg func(v ssa.Value, lits []Lit, depth int) bool
 		nonNeg = func(v ssa.Value, lits []Lit, depth int) bool {
-			if depth > 6 {
+			if depth > 10 {
 				return false
 			}
 			if fv, ok := constFloat(v); ok {
@@ -162,6 +198,26 @@ func backoffClampRule(c *Ctx, rule string) {
 					if fv, ok := constFloat(l.S.Args[0].V); ok && fv >= 0 {
 						return true
 					}
+				}
+			}
+			if p, ok := v.(*ssa.Parameter); ok {
+				if tv := m.traceValue(p); tv != ssa.Value(p) {
+					var at []Lit
+					if in, isIn := tv.(ssa.Instruction); isIn {
+						at = m.GuardsAt(in)
+					}
+					return nonNeg(tv, at, depth+1)
+				}
+				return false
+			}
+			if call, ok := v.(*ssa.Call); ok {
+				if vs, bs := retsOf(call); vs != nil {
+					for i, rv := range vs {
+						if !nonNeg(rv, m.Guards(bs[i]), depth+1) {
+							return false
+						}
+					}
+					return true
 				}
 			}
 			if ph, ok := v.(*ssa.Phi); ok {
@@ -830,7 +886,8 @@ func retryLoopRule(c *Ctx, rule string) {
 				return
 			}
 			l := m.litOf(bo, true, nil)
-			if l.Truth && l.S.V != nil && l.S.Op == "bin" && l.S.Name == "<" && l.S.Args[0].String() == "0" && strings.HasSuffix(l.S.Args[1].String(), ".MaxAttempts") {
+			ls := m.symInUnit(rb, bo) // with the helper's parameters read as the arguments
+			if l.Truth && l.S.V != nil && ls.Op == "bin" && ls.Name == "<" && ls.Args[0].String() == "0" && strings.HasSuffix(ls.Args[1].String(), ".MaxAttempts") {
 				cmpPos = append(cmpPos, l.S.V)
 			}
 		})
@@ -840,13 +897,22 @@ func retryLoopRule(c *Ctx, rule string) {
 				return
 			}
 			l := m.litOf(bo, true, nil)
-			if !(l.Truth && l.S.V != nil && l.S.Op == "bin" && l.S.Name == "<=" && strings.HasSuffix(l.S.Args[0].String(), ".MaxAttempts - 1)") && l.S.Args[1].V != nil && m.traceValue(l.S.Args[1].V) == ssa.Value(counter)) {
+			ls := m.symInUnit(rb, bo)
+			if !(l.Truth && l.S.V != nil && l.S.Op == "bin" && l.S.Name == "<=" && ls.Op == "bin" && strings.HasSuffix(ls.Args[0].String(), ".MaxAttempts - 1)") && l.S.Args[1].V != nil && m.traceValue(l.S.Args[1].V) == ssa.Value(counter)) {
 				return
 			}
 			nMax++
 			// evaluated only under MaxAttempts > 0 (0 = unbounded)
 			gs := m.unitGuards(rb, in)
 			pos := hasLit(gs, true, func(s *Sym) bool { return s.Op == "bin" && s.Name == "<" && s.Args[0].String() == "0" && strings.HasSuffix(s.Args[1].String(), ".MaxAttempts") })
+			if !pos {
+				// the same test on a helper's parameter that stands for cfg.MaxAttempts
+				for _, v := range cmpPos {
+					if pv, ok := v.(ssa.Instruction); ok && pv.Parent() == in.Parent() && hasLit(gs, true, func(s *Sym) bool { return s.V == v }) {
+						pos = true
+					}
+				}
+			}
 			assume := map[ssa.Value]bool{l.S.V: true}
 			for _, v := range cmpPos {
 				assume[v] = true
